@@ -166,6 +166,7 @@ type Sim struct {
 	opIdx        int
 	coreQueued   int
 	healing      bool
+	degraded     bool // a SHUTDOWN for a live pool connection was delivered: crash/progress oracles only
 	resolverSent bool
 	keySeq       uint64
 	conc         bool // currently executing concurrently (burst); false in serial plans and after the burst
@@ -526,6 +527,9 @@ func (s *Sim) checkQuiescent() {
 			continue
 		}
 		cm := s.model.calls[c.ID]
+		if s.degraded && c.Method == MBind && s.model.cfg.rr {
+			continue // a round-robin BIND assigned to a shut-down channel waits for its context
+		}
 		if cm == nil || !cm.rr {
 			s.vio("C06", "pick-blocked", "", fmt.Sprintf("call %d (%s) did not return from Pick and is %v at %s", c.ID, c.MethodName, st, c.task.Site))
 			s.stop = true
@@ -730,6 +734,16 @@ func (s *Sim) resolveConnEvent(sc *FakeSC, o Op) (connectivity.State, bool) {
 		// (addrConn.tearDown); everything else may arrive out of order.
 		if st != connectivity.Shutdown || sc.Removed {
 			s.env.Fired["odd_state_report"]++
+			return st, true
+		}
+		if s.plan.LiveShutdown && !s.conc && !s.healing {
+			// Outside what grpc-go does, inside what C05 quantifies over ("state
+			// reports ... in any order"): from here on the run is judged for
+			// crashes and progress only, the statements of the other properties say
+			// nothing about a pool whose connections were shut down under it.
+			s.env.Fired["shutdown_of_live_connection"]++
+			s.degraded = true
+			s.model.track = true
 			return st, true
 		}
 	}
@@ -1114,6 +1128,10 @@ func (s *Sim) heal() {
 			return
 		}
 	}
+	if s.degraded {
+		s.res.Count("heal_reached_degraded", 1)
+		return
+	}
 	s.res.Count("heal_reached", 1)
 	// Probe 1 (C01): every bound key goes home on the latest picker.
 	keys := make([]string, 0, len(s.model.keys))
@@ -1219,6 +1237,9 @@ func (s *Sim) healConnsAndCalls(i int) {
 	}
 	now := s.k.Elapsed()
 	for _, c := range s.calls {
+		if s.degraded {
+			break
+		}
 		if allReady && c.Invoked && !c.Returned && c.task != nil && c.task.State() == kern.BlockedSelect && !c.CtxEnded(now) {
 			msg := fmt.Sprintf("round-robin BIND call %d still waits although every pool connection is READY and all reports were delivered", c.ID)
 			s.vio("C06", "rr-wait-although-ready", "heal", msg)
